@@ -17,6 +17,7 @@
 From Coq Require Import List Bool Ascii Arith NArith.
 From TxVerif Require Import Lib.Bytes Spec.Ctl Model.CtlTypes Model.Framing Model.CtlProto
   Proofs.FramingProofs Proofs.CtlParse Proofs.CtlText Proofs.CtlItem Proofs.CtlRest Proofs.CtlFifo Proofs.CtlSegment.
+From TxVerif Require Import Spec.CtlOracle Proofs.CtlRefine Proofs.CtlRefine3.
 Import ListNotations.
 
 Theorem C01_framing_segmentation_independent : forall cs1 cs2,
@@ -97,6 +98,40 @@ Theorem C01_fifo_batch : forall lbehs c1 cs items,
   = Wrote (crlf (ctext (cl c1))) :: answers c1 cs items.
 Proof. exact fifo_batch. Qed.
 Print Assumptions C01_fifo_batch.
+
+(* L3 refinement (shared by C01, C02, C03): on EVERY history -- any interleaving of submissions
+   (plain, per-line-callback, with callbacks that submit / add / remove listeners), listener changes,
+   disconnect-notification requests, a connection loss, and chunks that each carry one whole
+   well-formed item (reply or event, any wire form) -- that the reference machine of
+   Spec/CtlOracle.v does not flag (causal, nothing after the loss, listeners removed only while
+   registered) and on which no exception escapes the model, the model's per-operation trace IS the
+   reference trace.  The reference machine is the oracle the check evaluates, so on these
+   histories the oracle accepts the model by construction.  Arbitrary chunkings reduce to this by
+   C01_protocol_segmentation_independent / the framing theorems. *)
+Theorem C01_model_is_reference : forall lbehs items ops tr,
+  aligned items ops -> a_good lbehs (a_init items) ops ->
+  run_ok lbehs init ops = Some tr ->
+  run lbehs init ops = fst (a_run lbehs (a_init items) ops).
+Proof. exact model_is_reference. Qed.
+Print Assumptions C01_model_is_reference.
+
+(* the hypotheses of the refinement theorem are met by a non-trivial history: a command whose
+   callback submits another, a listener added while it is in flight, a data-block reply, a
+   multi-line event, a plain OK, an error reply *)
+Example C01_refinement_nonvacuous :
+  let c1 := {| cl := {| cid := 1%N; ctext := map ch [65]; ccb := false |};
+               cscript := [SSubmit {| cid := 3%N; ctext := map ch [67]; ccb := true |}] |} in
+  let r1 := {| icode := 250%N; iparts := [Data (map ch [107; 61]) [map ch [46; 120]; map ch [50; 53; 48; 32; 79; 75]]];
+               ifinal := map ch [79; 75] |} in
+  let ev := {| icode := 650%N; iparts := [Mid (map ch [67; 73; 82; 67; 32; 49])]; ifinal := map ch [79; 75] |} in
+  let ok := {| icode := 250%N; iparts := []; ifinal := map ch [79; 75] |} in
+  let r3 := {| icode := 552%N; iparts := []; ifinal := map ch [110; 111] |} in
+  let items := [r1; ev; ok; r3] in
+  let ops := [OSubmit c1; OAdd (map ch [67; 73; 82; 67]) 1%N 10%N; ORecv (render r1); ORecv (render ev);
+              ORecv (render ok); OWhenDisc 7%N; ORecv (render r3); OLose] in
+  aligned items ops /\ a_good [] (a_init items) ops /\
+  exists tr, run_ok [] init ops = Some tr /\ List.length (List.concat tr) = 8%nat.
+Proof. vm_compute. repeat split; try reflexivity. eexists. split; reflexivity. Qed.
 
 (* non-vacuity: a two-command session with a data block whose lines look like status lines *)
 Example C01_nonvacuous :
